@@ -106,6 +106,13 @@ func (r *Recorder) stamp(plugin, req string, ev int) {
 // Tick draws the next number of the same counter (callers bracket their requests with it).
 func (r *Recorder) Tick() int64 { return r.seq.Add(1) }
 
+// Count is the number of stamps recorded and not yet taken.
+func (r *Recorder) Count() int {
+	r.mu.Lock()
+	defer r.mu.Unlock()
+	return len(r.log)
+}
+
 // Take returns the stamps recorded so far, ordered by sequence number, and clears them.
 func (r *Recorder) Take() []Stamp {
 	r.mu.Lock()
